@@ -32,7 +32,7 @@ def close(got: float, ref: RE, K: float = 64.0) -> bool:
     return abs(mpf(g) - ref.val) <= tol(ref, K)
 
 
-def close_real(val, ref: RE, K: float = 4.0) -> bool:
+def close_real(val, ref: RE, K: float = 4.0, float_floor: float = 0.0) -> bool:
     """an exact-real (256 bit) evaluation of emitted code against the reference: only the
     literal rounding / input error of the reference is allowed, plus 1e-40 relative of mag"""
     try:
@@ -41,7 +41,9 @@ def close_real(val, ref: RE, K: float = 4.0) -> bool:
         return False
     if not mpmath.isfinite(v):
         return False
-    return abs(v - ref.val) <= K * ref.err + mpf(10) ** -40 * ref.mag + TINY
+    # float_floor: sympy evaluates sub-expressions made of Float literals at the literals' own
+    # 53-bit precision, so its "exact" evaluation carries float64-level noise
+    return abs(v - ref.val) <= K * ref.err + (mpf(10) ** -40 + float_floor * U) * ref.mag + TINY
 
 
 def fmt(x) -> str:
